@@ -1,1 +1,15 @@
-fn main() { eprintln!("not implemented"); std::process::exit(2); }
+//! p-names: C14 (wire-format name decoding) and C16 (text form, equality,
+//! ordering of names). One binary, dispatching on the property id.
+
+mod c14;
+mod c16;
+mod model;
+mod watchdog;
+
+fn main() {
+    let ctx = qvlib::Ctx::from_args(&["C14", "C16"]);
+    match ctx.id.as_str() {
+        "C14" => c14::run(ctx),
+        _ => c16::run(ctx),
+    }
+}
